@@ -1,15 +1,35 @@
-"""Development aid: markdown table of the seeded changes kept under /verif/seeded (for DESIGN.md section 10)."""
+"""Development aid: (re)write the table of seeded changes in DESIGN.md section 10.1 from /verif/seeded/*/meta.json."""
 import glob
 import json
 import os
+import re
 
 VERIF = os.path.dirname(os.path.dirname(os.path.dirname(os.path.abspath(__file__))))
 rows = []
 for d in sorted(glob.glob(os.path.join(VERIF, "seeded", "*"))):
     m = json.load(open(os.path.join(d, "meta.json")))
     caught = "; ".join(f"{p}: {', '.join(r)}" for p, r in sorted(m.get("caught_by", {}).items()))
-    rows.append((m["id"], m["breaks"], (m.get("summary") or "").replace("|", "/").replace("\n", " ")[:230], (m.get("needs_to_manifest") or "").replace("|", "/").replace("\n", " ")[:160], caught, m.get("first_scan", "")))
-print("| seeded change | breaks | what it does | needs | caught by | first scan |")
-print("|---|---|---|---|---|---|")
+
+    def cell(t, n):
+        t = (t or "").replace("|", "/").replace("\n", " ").strip()
+        return t if len(t) <= n else t[: n - 1].rstrip() + "…"
+    rows.append((m["id"], m["breaks"], cell(m.get("summary"), 210), cell(m.get("first_scan", ""), 260), caught))
+first = [r[3].split(" ")[0].strip("(").upper() for r in rows]
+n_caught = sum(1 for f in first if f.startswith("CAUGHT"))
+n_missed = sum(1 for f in first if f.startswith("MISSED"))
+n_undec = sum(1 for f in first if f.startswith("UNDECIDED"))
+lines = [f"{len(rows)} seeded changes kept ({n_caught} caught by the first scan - some of them only by the check of another property or for an incidental reason, as noted; "
+         f"{n_missed} missed; {n_undec} made a rule give up, exit 2). All of them are caught now by the rules listed in the last column, "
+         "and are replayed by the thorough tier.", "",
+         "| seeded change | breaks | what it does (the sub-agent's summary) | first scan | caught now by |", "|---|---|---|---|---|"]
 for r in rows:
-    print("| `" + r[0] + "` | " + " | ".join(r[1:]) + " |")
+    lines.append("| `" + r[0] + "` | " + " | ".join(r[1:]) + " |")
+table = "\n".join(lines)
+p = os.path.join(VERIF, "DESIGN.md")
+s = open(p).read()
+if "SEED_TABLE_PLACEHOLDER" in s:
+    s = s.replace("SEED_TABLE_PLACEHOLDER", "<!-- SEED_TABLE_BEGIN -->\n" + table + "\n<!-- SEED_TABLE_END -->")
+else:
+    s = re.sub(r"<!-- SEED_TABLE_BEGIN -->.*?<!-- SEED_TABLE_END -->", lambda _: "<!-- SEED_TABLE_BEGIN -->\n" + table + "\n<!-- SEED_TABLE_END -->", s, flags=re.S)
+open(p, "w").write(s)
+print(len(rows), "rows;", n_caught, "caught,", n_missed, "missed,", n_undec, "undecided")
